@@ -37,7 +37,7 @@ func (g *Gen) trackedSubset(n int) []bool {
 var vjpOps = []string{"slice", "patch", "transpose", "reshape", "unsqueeze", "squeeze", "flatten",
 	"sum-along", "max-along", "min-along", "avg-along", "var-along", "std-along", "mean-along",
 	"scale", "pow", "exp", "log", "sin", "cos", "tan", "sinh", "cosh", "tanh",
-	"elmax", "elmin", "add", "sub", "mul", "div", "dot", "matmul", "concat"}
+	"elmax", "elmin", "add", "sub", "mul", "div", "dot", "matmul", "concat", "reused-untracked-operand", "pow", "pow"}
 
 func famVJP(g *Gen) {
 	g.nontr = true
@@ -118,7 +118,7 @@ func (g *Gen) vjpOne(op string) {
 			// integral exponents, base may be 0 for exponent 0, 1, 2
 			a = Dec{int64(g.pick(0, 1, 2, 3, -1, -2)), 0}
 			vals := g.valsDistinct(prod(ds), -3, 3)
-			if a.M >= 0 && a.M <= 2 && len(vals) > 0 {
+			if a.M >= 0 && a.M <= 3 && len(vals) > 0 {
 				vals[g.intn(len(vals))] = 0
 				g.tag("pow-base-0")
 			}
@@ -188,6 +188,39 @@ func (g *Gen) vjpOne(op string) {
 		}
 		y, _ := g.do(Cmd{Op: OpConcat, Targs: ts, Z: dim})
 		g.weightAndBackprop(y)
+	case "reused-untracked-operand":
+		// an untracked constant is an operand of two INDEPENDENT applications, each with a fresh tracked operand, each
+		// back-propagated on its own: the constant is not consumed by the first pass
+		if len(ds) == 0 {
+			ds = []int{2}
+		}
+		c := g.leafDistinct(ds, false, -3, 3)
+		kind := g.intn(5)
+		for pass := 0; pass < 2+g.intn(2); pass++ {
+			x := g.leafDistinct(ds, true, -3, 3)
+			var y int
+			switch kind {
+			case 0:
+				y, _ = g.do(Cmd{Op: OpBin, K: g.pick(6, 7), T: x, U: T(c)})
+			case 1:
+				y, _ = g.do(Cmd{Op: OpBin, K: g.pick(6, 7), T: c, U: T(x)})
+			case 2:
+				if g.chance(0.5) {
+					y, _ = g.do(Cmd{Op: OpPatch, T: x, Ranges: nil, U: T(c)})
+				} else {
+					y, _ = g.do(Cmd{Op: OpPatch, T: c, Ranges: nil, U: T(x)})
+				}
+			case 3:
+				ts := []Targ{T(x), T(c)}
+				if g.chance(0.5) {
+					ts = []Targ{T(c), T(x)}
+				}
+				y, _ = g.do(Cmd{Op: OpConcat, Targs: ts, Z: g.intn(len(ds))})
+			default:
+				y, _ = g.do(Cmd{Op: OpBin, K: g.pick(8, 9, 10), T: x, U: T(c)})
+			}
+			g.weightAndBackprop(y)
+		}
 	default:
 		panic("harness: unknown vjp op " + op)
 	}
@@ -376,6 +409,24 @@ func famDAG(g *Gen) {
 	// back-propagate from one root (later tensors are more interesting), then optionally build
 	// a second graph over the same leaves and back-propagate again
 	root := pool[len(pool)-1-g.intn(min(3, len(pool)))]
+	if g.chance(0.3) {
+		// two graphs over the same leaves, BOTH built before any back-propagation, then back-propagated one after
+		// the other: the contributions add up on the shared leaves (every gradient is read in between)
+		g.tag("two-roots-built-before-backprop")
+		poolB := append([]int{}, pool[:nLeaves]...)
+		for i := 0; i < 1+g.intn(4); i++ {
+			y := g.dagStep(poolB, false)
+			if g.isT(y) {
+				poolB = append(poolB, y)
+			}
+		}
+		g.do(Cmd{Op: OpBackprop, U: T(root)})
+		g.do(Cmd{Op: OpBackprop, U: T(poolB[len(poolB)-1])})
+		if g.chance(0.5) {
+			g.do(Cmd{Op: OpBackprop, U: T(pool[len(pool)-1-g.intn(min(3, len(pool)))])})
+		}
+		return
+	}
 	g.do(Cmd{Op: OpBackprop, U: T(root)})
 	if g.chance(0.4) {
 		g.tag("second-backprop-shared-leaves")
